@@ -47,6 +47,24 @@ def run(chk):
                       "implementation says %s, the Recommendation says %s\n"
                       "replay: echo 'class1\\t%X' | harness/target/debug/xmlrs-driver  ->  %s\n"
                       % (key, cp, impl, spec, cp, out))
+    # ---- the `*_except*` parser constructors, exhaustively: the translator assumes class(c) && c not in except
+    wdiffs = lib.wrapper_diffs()
+    chk.cov["wrapper_constructors_checked_exhaustively"] = ["%s(%r)" % w for w in lib.WRAPPER_USES]
+    for name, ex, cps, raw in wdiffs:
+        cp = cps[0] if cps else 0
+        c = chr(cp) if cps else "?"
+        probe = "a" + c + "b"
+        ans = lib.run_lines(lib.build_harness(), [lib.req("nameok", "ncname", probe), lib.req("nameok", "element", probe),
+                                                  lib.req("accept", "<a>" + c + "</a>")])
+        spec = lib.run_lines(lib.model_driver(), [lib.req("nameok", "spec-ncname", probe)])
+        chk.violation("wrapper_%s_%X" % (name, cp),
+                      "property C18: the parser constructor xmlchar::%s(%r) does not accept exactly the characters of its class "
+                      "minus the excepted ones; first offending code points: %s\n"
+                      "probe NCName %s: implementation accepts=%s (as element name: %s), XML 1.0 / Namespaces says %s; "
+                      "as character data: %s\n"
+                      "replay: printf 'wrapper\\t%s\\t%s\\n' | harness/target/debug/xmlrs-driver  ->  %s\n"
+                      % (name, ex, ",".join("U+%04X" % x for x in cps), lib.enc(probe), ans[0], ans[1], spec[0], ans[2],
+                         name, lib.enc(ex).replace("%", "%%"), raw))
     # ---- tie + monitor for names
     maxlen = 4 if thorough else 3
     cases = [(k, s) for s in strings(maxlen) for k in KINDS]
@@ -77,7 +95,7 @@ def run(chk):
                       "implementation accepts=%s, XML 1.0 / Namespaces says %s\n"
                       "replay: printf 'nameok\\t%s\\t%s\\n' | harness/target/debug/xmlrs-driver\n"
                       % (k, s, lib.enc(s), a, sp, k, lib.enc(s)))
-    if not m_fail and not diffs:
+    if not m_fail and not diffs and not wdiffs:
         if t_dis:
             k, s, a, b = t_dis[0]
             chk.violation("tie_names",
